@@ -151,6 +151,29 @@ class LUDomain(opsdom.OpsDomain):
                     return MapIter(th, None)
                 if m == "size":
                     return len(th.d)
+                if m == "empty":
+                    return len(th.d) == 0
+                if m in ("count", "contains"):
+                    key = it.rvalue(args[0], fr)
+                    return (1 if key in th.d else 0) if m == "count" else (key in th.d)
+                if m == "at":
+                    key = it.rvalue(args[0], fr)
+                    if key not in th.d:
+                        raise ir.AnalysisBroken("unordered_map::at(%s) on a map without that key (throws std::out_of_range) at %s" % (key, ir.locstr(e)))
+                    return th.d[key]
+                if m in ("erase",):
+                    key = it.rvalue(args[0], fr)
+                    if isinstance(key, MapIter):
+                        key = key.key
+                    return 1 if th.d.pop(key, None) is not None else 0
+                if m in ("clear",):
+                    th.d.clear()
+                    return None
+                if m in ("insert", "emplace") and len(args) == 2:
+                    key, v = it.rvalue(args[0], fr), it.rvalue(args[1], fr)
+                    if key not in th.d:
+                        th.d[key] = Cell(v, "map[%s]" % key)
+                    return None
             if isinstance(th, Arr) and base.startswith("std::vector::"):
                 if m == "clear":
                     th.length = 0
